@@ -69,6 +69,13 @@ def run(ctx):
         items = [round(rng.gauss(0, 0.05), 3) for _ in range(k)] + [round(rng.uniform(0.3, 1.5) + rng.gauss(0, 0.05), 3) for _ in range(3 * bi)]
         strict, loose = dict(p, threshold=hi), dict(p, threshold=lo)
         ts.append(P.two_runs("CUSUM", strict, loose, items, rng.randrange(10 ** 6), "FirstDriftNotLater", extra={"par": "threshold"}))
+    # NN-DVI with two significance levels close to each other and few re-assignments: both runs draw the same re-assignments under the same
+    # seed, so the critical values differ only through the quantile - by little, which is when any dependence of the drawing on alpha shows
+    for i in range(8 if q else 60):
+        lo_, hi_ = rng.choice([(0.05, 0.04), (0.045, 0.04), (0.06, 0.05), (0.03, 0.025), (0.1, 0.09)])
+        p = dict(k_nn=3, sampling_times=rng.choice([10, 20]))
+        items = P.gen_items("NNDVI", rng, rng.randint(8, 12))
+        ts.append(P.two_runs("NNDVI", dict(p, alpha=hi_), dict(p, alpha=lo_), items, rng.randrange(10 ** 6), "FirstDriftNotLater", extra={"par": "alpha"}))
     # streaming kdq-tree: the divergence hovers between the two critical values (light contamination of the first test
     # window), dips back when calm data dilutes it, and a real drift follows: excursions that do not persist happen in
     # the looser run only, and whatever the detector does at their end must not delay its alarm behind the stricter run
